@@ -374,7 +374,7 @@ func c19Fidelity(c *Ctx) {
 		cmdItems = append(cmdItems, kv{"alias", fmt.Sprintf("al%d-%d", cid, i) + []string{"", "é"}[r.Intn(2)]})
 	}
 	if r.Chance(1, 3) {
-		cmdItems = append(cmdItems, kv{"subcommands-optional", "true"})
+		cmdItems = append(cmdItems, kv{"subcommands-optional", []string{"true", "yes", "no", "false", "0", "x"}[r.Intn(6)]})
 	}
 	if r.Chance(1, 3) {
 		cmdItems = append(cmdItems, kv{"hidden", "true"})
